@@ -3,8 +3,9 @@ package harness
 import (
 	"encoding/json"
 	"fmt"
-	"os"
 	"net"
+	"os"
+	"strings"
 	"sync"
 	"time"
 
@@ -30,6 +31,7 @@ type Env struct {
 	harnessPanic string
 	notes        []string
 
+	RaceOnly   bool
 	Oblig      int
 	Nontrivial bool
 	Probes     map[string]int
@@ -55,6 +57,11 @@ func (e *Env) Violation(sig, format string, args ...any) bool {
 	e.mu.Lock()
 	defer e.mu.Unlock()
 	full := e.Prop + "/" + sig
+	if e.RaceOnly && !strings.HasPrefix(sig, "race/") && !strings.HasPrefix(sig, "panic/") {
+		// C37 re-runs other properties' scenarios for the race detector only;
+		// their own oracles are judged by their own checks
+		return true
+	}
 	if e.knownSigs[full] {
 		for _, k := range e.known {
 			if k == full {
